@@ -103,16 +103,18 @@ def resolveStr (params : List (String × J)) (s : String) : J :=
     let l := lower s.toList
     if l = "true".toList || l = "false".toList then .str (String.ofList l) else .str s
 
-/-- rendering of scalars reached through a reference (`_render_scalars`) -/
-def renderScalars : J → J
+/-- rendering of values reached through a reference (`_render_scalars`): scalars as text, text through the
+    string clause of `resolve` (SSM references, boolean spelling), lists element-wise -/
+def renderScalars (params : List (String × J)) : J → J
   | .bool b => .str (if b then "true" else "false")
   | .int i => .str (String.ofList (intToChars i))
   | .num r => .str r
-  | .arr xs => .arr (renderList xs)
+  | .str s => resolveStr params s
+  | .arr xs => .arr (renderList params xs)
   | j => j
-where renderList : List J → List J
+where renderList (params : List (String × J)) : List J → List J
   | [] => []
-  | x :: xs => renderScalars x :: renderList xs
+  | x :: xs => renderScalars params x :: renderList params xs
 
 def isNoValue (j : J) : Bool :=
   match j with
@@ -220,7 +222,7 @@ def applyFn (env : Env) (fn : String) (raw : J) (whole : Option J) (each : List 
     let r ← whole
     let name ← strOf r
     match J.lookup name env.params with
-    | some v => pure (renderScalars v)
+    | some v => pure (renderScalars env.params v)
     | none => pure (undefinedParam name)
   | some "resolve_join" =>
     match each with
